@@ -9,7 +9,7 @@ CLAIMED = {
          "formula; the model is tied to core.py/general.py by bit-exact integer correspondence on every run, and the "
          "implementation is cross-checked against an independent triple-loop oracle.",
     note="Trusted: Coq kernel, hand-written model (Model/QSMCore.v, Model/General.v) tied only by correspondence on generated "
-         "integer cases, the harness, JAX as executor. Rounding is outside the theorems. Rectangular form included (gmatmul_den).",
+         "integer cases, the harness, JAX as executor. Rounding is outside the theorems. Rectangular form included (gmatmul_den). Right-hand sides of rank >= 3 go through the reshape wrapper handle_matvec_shapes, modelled in Model/Reshape.v (nested-list arrays) with theorems reshape_roundtrip / matmul_any_rank / general_matmul_any_rank and exact correspondence on rank 3 and 4 inputs.",
     technique="Coq proof (scan invariant by induction over n) + exact model/implementation correspondence",
     ref="DESIGN.md section 6, C04"),
  "C05": dict(
@@ -29,7 +29,7 @@ CLAIMED = {
          "SquareQSM.inv and SymmQSM.inv return a two-sided inverse of the same kind whenever all leading principal blocks are non-singular "
          "(A = (1+L) diag(pivots) (1+U) with the same generators, pivots = ratios of leading principal minors; non-symmetric, unequal orders, "
          "non-commuting transition matrices included). Model tied by tolerance correspondence; numpy.linalg oracle on well-conditioned inputs.",
-    note="Trusted: Coq kernel, model Model/QSMSolve.v tied by tolerance correspondence (1e-9*scale), numpy oracle. Rounding outside the theorems.",
+    note="Trusted: Coq kernel, model Model/QSMSolve.v tied by tolerance correspondence (1e-9*scale), numpy oracle. Rounding outside the theorems. Triangular solves with right-hand sides of rank >= 3 are proved through the reshape-wrapper model (lower/upper_solve_any_rank).",
     technique="Coq proof (induction over scan length, same-recurrence argument; LDU elimination for square / symmetric inverses) + tolerance correspondence",
     ref="DESIGN.md section 6, C06"),
  "C07": dict(
@@ -82,10 +82,10 @@ CLAIMED = {
     ref="DESIGN.md section 6, C19"),
  "C01": dict(
     text="Machine-checked theorems: for any factor L with L L^T = S the whitened quadratic form equals r^T S^-1 r and (abstract additive log) sum log diag L = log det S / 2; "
-         "on the quasiseparable path of the model these hold for every n/order over any real-closed field when the pivots are positive; the isfinite guard never returns NaN/+inf. "
+         "on the quasiseparable path of the model these hold for every n/order over any real-closed field when the pivots are positive, and on the dense path with the factor computed by the model's Cholesky recursion for every symmetric matrix with positive leading principal minors (logp_direct_exact, dense_chol_sound_spd); the isfinite guard never returns NaN/+inf. "
          "Model tied by tolerance correspondence (factor diagonal, whitened residual, log probability) for the direct, quasiseparable and Kalman solvers over kernels x noise "
          "(scalar, per-point, banded, dense) x means x sizes from 1 with coincident points, eager and jit, condition().log_probability and numpyro; numpy slogdet/solve oracle; non-PD / non-finite inputs give -inf.",
-    note="Trusted: Coq kernel, model Model/GP.v + Model/Dense.v (stand-ins for LAPACK Cholesky / triangular solve, an oracle), harness, numpy oracle. Kernel matrices and means enter as data. "
+    note="Trusted: Coq kernel, model Model/GP.v + Model/Dense.v (stand-ins for LAPACK Cholesky / triangular solve: proved correct in Theory/DenseThy.v, tied to LAPACK by tolerance), harness, numpy oracle. Kernel matrices and means enter as data. "
          "That a failed factorisation yields NaN (hence -inf) is XLA behaviour: observed, not proved. float32 not exercised in the quick tier.",
     technique="Coq proof (Gaussian algebra + Cholesky/solve theorems composed) + tolerance correspondence of the pipeline model",
     ref="DESIGN.md section 6, C01"),
@@ -100,7 +100,7 @@ CLAIMED = {
     text="Machine-checked: any two lower-triangular factors of the same matrix give the same whitened quadratic form and the same squared diagonal product, so the value reported does not depend on the "
          "factorisation algorithm. Pairwise comparison of the implementation's dense / quasiseparable / Kalman solvers (log probability, normalisation, covariance, variance, samples for a key, triangular product/solve) "
          "and correspondence of the Kalman solver's Gallina model (table order included) with the implementation and with the Cholesky diagonal of the dense covariance in sweep order.",
-    note="Trusted: as C01. the Kalman recursion is proved to be the LDU elimination of the covariance of its state-space model for arbitrary tables (innovation variances = pivots, sum v^2/s = y^T S^-1 y, prod s = det S), and in the order KalmanSolver sweeps (last datum first) that covariance is proved to be the matrix of to_symm_qsm + noise conjugated by the reversal permutation for EVERY kernel record with symmetric Pinf (kalman_solver_is_quasisep, kalman_solver_logp; also end to end for the regenerated built-in kernels), so Kalman's log probability and normalisation are those of the other two solvers; in forward order the same holds for time-invariant models only; uniqueness of the lower-triangular factor with positive diagonal (solver-independent samples / dot_triangular) is a theorem (chol_unique); the conditional process is compared solver against solver in 8 conditioning modes.",
+    note="Trusted: as C01. the Kalman recursion is proved to be the LDU elimination of the covariance of its state-space model for arbitrary tables (innovation variances = pivots, sum v^2/s = y^T S^-1 y, prod s = det S), and in the order KalmanSolver sweeps (last datum first) that covariance is proved to be the matrix of to_symm_qsm + noise conjugated by the reversal permutation for EVERY kernel record with symmetric Pinf (kalman_solver_is_quasisep, kalman_solver_logp; also end to end for the regenerated built-in kernels), so Kalman's log probability and normalisation are those of the other two solvers; in forward order the same holds for time-invariant models only; uniqueness of the lower-triangular factor with positive diagonal (solver-independent samples / dot_triangular) is a theorem (chol_unique); the dense Cholesky recursion of the model and SymmQSM.cholesky are proved to denote the same factor on the same matrix (dense_and_quasisep_factor_equal); the conditional process is compared solver against solver in 8 conditioning modes.",
     technique="Coq proof (factor-independence of the Gaussian quantities) + correspondence of the Kalman model",
     ref="DESIGN.md section 6, C03"),
  "C12": dict(
@@ -118,7 +118,7 @@ CLAIMED = {
     technique="Coq proof (Schur complement algebra, block determinant) + history execution against oracle",
     ref="DESIGN.md section 6, C13"),
  "C16": dict(
-    text="Coq theorem by complete enumeration (vm_compute, lifted with forallb_forall) of a shape table REGENERATED on every run from dead-code-eliminated jaxprs of 31 scalable entry points (incl. conditioning with banded / diagonal predictive noise and an alternative kernel): "
+    text="Coq theorem by complete enumeration (vm_compute, lifted with forallb_forall) of a shape table REGENERATED on every run from dead-code-eliminated jaxprs of 34 scalable entry points (incl. conditioning with banded / diagonal predictive noise and an alternative kernel): "
          "no intermediate has two data-sized dimensions and no shape inside a data-length loop body depends on N or T; a generic theorem then gives, for every N and T, that the total element count "
          "of each entry point is an affine function of (N, T). The dense covariance is a positive control that the same predicate rejects.",
     note="PARTIAL: faithfulness of jax.make_jaxpr/DCE to execution and the affine fit (five traces) are trusted; XLA may fuse or rematerialise. Binary-search loops of searchsorted contribute log-sized dimensions recorded as a constant bound 64.",
@@ -128,7 +128,7 @@ CLAIMED = {
  "C17": dict(
     text="Machine-checked (any real-closed field, every vector length): the sortedness check raises iff the coordinates are not non-decreasing; sorted inputs with ties are accepted, a single inversion at "
          "any position is rejected, assume_sorted bypasses the check; decision tables for X_test validation, rank checks and the quasiseparable operator family checks. Exact correspondence of the predicate on "
-         "every inversion position for lengths <= 5/6 (incl. 1e-9 inversions), eager ValueError, error at execution under jit and vmap, structured coordinates, and a 31-row table of the other documented ValueErrors (incl. partial leaf mismatches of a structured X_test).",
+         "every inversion position for lengths <= 5/6 (incl. 1e-9 inversions), eager ValueError, error at execution under jit and vmap, structured coordinates, and a table of the other documented ValueErrors (non-scalar constants against every kind of kernel expression, either side, eager and traced) (incl. partial leaf mismatches of a structured X_test).",
     note="PARTIAL: delivery of the host callback's exception under jit/vmap is JAX runtime behaviour (observed, not proved).",
     technique="Coq proof (sorted <-> no adjacent inversion) + exact correspondence + exception table",
     ref="DESIGN.md section 6, C17"),
